@@ -369,6 +369,62 @@ void batch_wake() {
 }
 }
 
+
+#ifdef VF_DISCIPLINE
+// C03 (b) for the thread pool: lock discipline. The pool object (task queue header, worker list, exit flag) is registered as protected by the
+// pool mutex after construction; with -DVF_DISCIPLINE every translated access to it asserts that the mutex is held. Operations come from the
+// harness thread and from jobs running on workers: submissions, stop(), the state queries is_stopped() / any_enqueued() (also through
+// thread_pool::current), and a coroutine job that does `co_await thread_pool::current()` (re-schedule on the pool it runs in).
+// vector: [n-1, nops, ops...]: 0 k = submit run_detached job whose body does action k; 1 k = submit coroutine job (co_await pool) with action k;
+//         2 t = run worker t+1; 3 = stop() from the harness thread; 4 = is_stopped() + any_enqueued() from the harness thread
+//         action: 0 none, 1 current::is_stopped(), 2 current::any_enqueued(), 3 co_await current() (coroutine jobs only), 4 submit another job
+struct TP : thread_pool { using thread_pool::thread_pool; std::mutex &mx() { return _mx; } };
+int disc_ran = 0;
+void disc_action(int k) {
+    disc_ran++;
+    if (k == 1) vf_out(thread_pool::current::is_stopped());
+    else if (k == 2) vf_out(thread_pool::current::any_enqueued());
+    else if (k == 4 && G->pool && !G->stop_requested) G->pool->run_detached([] { disc_ran++; });
+}
+async<void> disc_co(int k) {
+    bool cancelled = false;
+    try { co_await *G->pool; } catch (const await_canceled_exception &) { cancelled = true; }
+    if (cancelled) co_return;
+    if (k == 3) {
+        try { co_await thread_pool::current(); } catch (const await_canceled_exception &) { cancelled = true; }
+        disc_ran++;
+    } else disc_action(k);
+}
+void disc_pool() {
+    vf_warmup();
+    Ctx cx; G = &cx;
+    const int n = 1 + vf_choice(2);
+    vf_cond_pick(0);
+    const int nops = vf_choice(6);
+    cx.nthreads = n;
+    disc_ran = 0;
+    TP *tp = new TP(n);
+    cx.pool = tp;
+    vf_protect_obj(static_cast<thread_pool *>(tp), sizeof(thread_pool), &tp->mx());
+    for (int step = 0; step < nops; step++) {
+        const int op = vf_choice(5);
+        if (op == 0) { const int k = vf_choice(5); tp->run_detached([k] { disc_action(k); }); }
+        else if (op == 1) { const int k = vf_choice(5); disc_co(k).detach(); }
+        else if (op == 2) { const int t = 1 + vf_choice(n); VF_ASSERT(vf_thread_runnable(t), "VF_SPEC worker not runnable"); VF_ASSUME(vf_thread_runnable(t)); vf_thread_run(t); }
+        else if (op == 3) { cx.stop_requested = true; tp->stop(); }
+        else { vf_out(tp->is_stopped()); vf_out(tp->any_enqueued()); }
+        vf_out(disc_ran);
+    }
+    cx.stop_requested = true;
+    tp->stop();
+    vf_unprotect_all();          // the destructor runs when no other thread can reach the pool any more
+    cx.pool = nullptr;
+    delete tp;
+    vf_choice_end();
+    vf_witness();
+}
+extern "C" void h_disc_pool() { disc_pool(); }
+#endif
 extern "C" void h_batch_wake() { batch_wake(); }
 extern "C" void h_pool() { run_history(false); }
 extern "C" void h_raw_cancel() { run_history(true); }
